@@ -194,6 +194,33 @@ macro_rules! define_hasher {
             }
         }
 
+        /// Verification hooks (cfg cryptocorrosion_verif): read / overwrite the byte counter, read the chaining value.
+        #[cfg(cryptocorrosion_verif)]
+        impl<N> $name<N>
+        where
+            N: Unsigned + ArrayLength<u8> + NonZero + Default,
+        {
+            /// Pretend `bytes` bytes have been absorbed (and, if non-zero, that the first block was processed).
+            pub fn verif_set_counter(&mut self, bytes: u64) {
+                self.state.t.0 = bytes;
+                if bytes != 0 {
+                    self.state.t.1 &= !T1_FLAG_FIRST;
+                }
+            }
+            pub fn verif_counter(&self) -> u64 {
+                self.state.t.0
+            }
+            pub fn verif_first(&self) -> bool {
+                self.state.t.1 & T1_FLAG_FIRST != 0
+            }
+            pub fn verif_chain(&self) -> GenericArray<u8, $state_bytes> {
+                *self.state.x.as_byte_array()
+            }
+            pub fn verif_buffer_pos(&self) -> usize {
+                self.buffer.position()
+            }
+        }
+
         impl<N> Default for $name<N>
         where
             N: Unsigned + ArrayLength<u8> + NonZero + Default,
